@@ -159,6 +159,14 @@ def gen_random(rng):
     if rng.random() < 0.02:
         # a long history (thousands of rows over few keys): whatever batch size a bounded sorter trims in is exceeded
         recs = records.gen_records(rng, n=rng.choice((1500, 2600, 4000)))
+    if rng.random() < 0.15 and recs:
+        # sort keys that are objects with the same members in different orders (not with --unique: C10 excludes them)
+        for r0 in recs:
+            if rng.random() < 0.5:
+                r0["k"] = rng.choice(records.PERMUTED_KEYS)
+        permuted = True
+    else:
+        permuted = False
     args = []
     groupkey = "g"
     if rng.random() < 0.2:
@@ -179,8 +187,10 @@ def gen_random(rng):
             args += ["--unique"]
     elif rng.random() < 0.2:
         args += ["--unique"]
+    if permuted:
+        args = [a for a in args if a != "--unique"]
     has_sel = "--select" in args
-    for i in range(rng.choice((0, 1, 1, 2, 3))):
+    for i in range(rng.choice((0, 1, 1, 2, 3)) if not permuted else rng.choice((1, 2))):
         key = rng.choice([".k", ".k=DESC", ".v", ".v DESC", ".g", ".s=DESC", "(len .arr)", "1", ".k=asc"] + (["/k/", "/g/ DESC", "/k/=DESC"] if has_sel else []))
         if rng.random() < 0.15:
             # the key reaches its value through a --set macro or variable (also: a selected column through a macro)
